@@ -43,7 +43,9 @@ Record config := mkConfig {
   snap_transpose : bool;     (* COO.transpose iterates a snapshot of the deque *)
   snap_reshape : bool;       (* COO.reshape iterates a snapshot of the deque *)
   maxlen : nat;              (* deque(maxlen=...) *)
-  csc_via_csr : bool         (* last stage of tocsc is self.tocsr().tocsc() *)
+  csc_via_csr : bool;        (* last stage of tocsc is self.tocsr().tocsc() *)
+  memo_clear_bound : option nat   (* None: the dtype memo never removes an entry (what the code does);
+                                     Some n: a miss clears the dict when it holds >= n entries (a variant) *)
 }.
 
 Definition snap (cfg : config) (s : site) : bool :=
@@ -53,7 +55,8 @@ Definition all_snapshot (cfg : config) : bool := snap_transpose cfg && snap_resh
 
 (* what /repo's source says now *)
 Definition src_config : config :=
-  mkConfig transpose_lookup_snapshot reshape_lookup_snapshot cache_maxlen tocsc_final_via_tocsr.
+  mkConfig transpose_lookup_snapshot reshape_lookup_snapshot cache_maxlen tocsc_final_via_tocsr
+           (if memo_no_deletion then None else Some 0%nat).
 
 (* ---------------------------------------------------------------- shared state *)
 Record deque := mkDeque { items : list (Z * Z); dstate : Z }.
@@ -188,6 +191,14 @@ Section Step.
     mkShared (heap sh) (dd sh) ((k, v) :: attrs sh) (memo sh) (operands sh).
   Definition set_memo (sh : shared) (k v : Z) : shared :=
     mkShared (heap sh) (dd sh) (attrs sh) ((k, v) :: memo sh) (operands sh).
+  Definition clear_memo (sh : shared) : shared :=
+    mkShared (heap sh) (dd sh) (attrs sh) [] (operands sh).
+  (* the miss path of the memo wrapper before it computes: nothing in the code; `cache.clear()` in the variant *)
+  Definition memo_evict (sh : shared) : shared :=
+    match memo_clear_bound cfg with
+    | Some n => if Nat.leb n (length (memo sh)) then clear_memo sh else sh
+    | None => sh
+    end.
 
   Definition iter_next (sh : shared) (it : iter) : res (option ((Z * Z) * iter)) :=
     match it with
@@ -284,7 +295,7 @@ Section Step.
       | Some v => (sh, ret t (CMemo k) (Ok v))
       | None => (sh, ret t (CMemo k) (Raise OtherError))
       end
-    | PmCompute k => (sh, goto t (PmSet k (f k)))
+    | PmCompute k => (memo_evict sh, goto t (PmSet k (f k)))
     | PmSet k v => (set_memo sh k v, ret t (CMemo k) (Ok v))
     (* ---- everything else *)
     | PpCompute k => (sh, ret t (CPure k) (Ok (f k)))
@@ -377,4 +388,5 @@ Definition d13_sched : list nat := [1; 1; 1; 1; 0; 0; 0; 1; 1; 1; 1; 0]%nat.
 Definition d13_witness : list (list call) * list nat := (d13_threads d13_site, d13_sched).
 
 (* the protocol as it would be after the candidate fix (iterate a snapshot in both methods) *)
-Definition fixed_config : config := mkConfig true true (maxlen src_config) (csc_via_csr src_config).
+Definition fixed_config : config :=
+  mkConfig true true (maxlen src_config) (csc_via_csr src_config) (memo_clear_bound src_config).
